@@ -3,6 +3,7 @@ SPEC = {
         {"name": "c10", "pkg": "./zz_verif/c10", "run": "^Test", "shards": {"quick": 1, "thorough": 16}},
         {"name": "c10a", "pkg": "./zz_verif/c10a", "run": "^Test", "shards": {"quick": 1, "thorough": 16}},
         {"name": "c10fuzz", "pkg": "./zz_verif/c10", "fuzz": "FuzzC10", "fuzztime": "60s", "tiers": ["thorough"], "shards": {"thorough": 1}},
+        {"name": "c10afuzz", "pkg": "./zz_verif/c10a", "fuzz": "FuzzC10", "fuzztime": "60s", "tiers": ["thorough"], "shards": {"thorough": 1}},
     ],
     "rule": "case = (decoding entry point, input) where the input is a format-aware mutation of a valid encoding (bit flip, every-prefix truncation, appended bytes, overwritten windows, "
             "length-prefix fields set to 0 / max / remaining±1, doubled, empty, one byte, exp±1, exp±16) or a raw string at lengths {0,1,2,exp-16,exp-1,exp,exp+1,exp+16,2·exp}; entry points with a documented "
